@@ -32,3 +32,32 @@ INTERNAL_EXC = {
     "ZeroDivisionError": "_alpha_tr degenerate step length",
     "StopIteration": "raised by user callbacks; translated to CallbackSuccess",
 }
+
+# functions whose statements are mutated by the sensitivity run of the thorough
+# tier (the code each property is anchored in)
+_P = "cobyqa.problem:"
+_M = "cobyqa.main:"
+_F = "cobyqa.framework:TrustRegion."
+_MO = "cobyqa.models:"
+_O = "cobyqa.subsolvers.optim:"
+_G = "cobyqa.subsolvers.geometry:"
+SENSITIVITY_FUNCS = {
+    "C01": [_P + "Problem.build_x", _P + "Problem.__call__", _P + "BoundConstraints.project", _F + "get_trust_region_step", _F + "get_geometry_step", _F + "get_second_order_correction_step", _M + "_eval", _MO + "Interpolation.__init__"],
+    "C02": [_P + "Problem.__call__", _P + "Problem.best_eval", _P + "Problem.maxcv", _P + "Problem.violation", _P + "NonlinearConstraints.violation", _M + "_build_result"],
+    "C03": [_P + "Problem.__call__", _P + "Problem.best_eval", _M + "_build_result"],
+    "C05": [_M + "_eval", _MO + "Models.__init__", _P + "Problem.__call__", _P + "Problem.n_eval", _M + "_build_result"],
+    "C06": [_P + "Problem.__call__", _P + "ObjectiveFunction.__call__", _P + "NonlinearConstraints.__call__", _P + "NonlinearConstraints.violation", _P + "Problem.violation", _F + "merit"],
+    "C07": [_M + "minimize", _M + "_build_result", _M + "_eval"],
+    "C08": [_P + "Problem.__call__", _M + "minimize", _M + "_build_result", _M + "_get_constraints", _P + "Problem.best_eval"],
+    "C09": [_M + "_eval", _MO + "Models.__init__", _P + "Problem.__call__", _M + "minimize"],
+    "C10": [_P + "Problem.__init__", _P + "Problem.build_x", _M + "_get_bounds", _M + "_get_constraints"],
+    "C11": [_P + "BoundConstraints.__init__", _P + "LinearConstraints.__init__", _P + "Problem.__init__", _M + "minimize", _MO + "build_system", _MO + "Interpolation.__init__", "cobyqa.utils.math:exact_1d_array"],
+    "C12": [_MO + "Models.update_interpolation", _MO + "Models.shift_x_base", _MO + "Models.reset_models", _MO + "Quadratic.update", _MO + "Quadratic.shift_x_base", _MO + "Models.__init__"],
+    "C13": [_MO + "Quadratic.__call__", _MO + "Quadratic.grad", _MO + "Quadratic.hess", _MO + "Quadratic.hess_prod", _MO + "Quadratic.curv", _MO + "Quadratic._get_model", _MO + "build_system", _MO + "Quadratic.update"],
+    "C15": [_O + "tangential_byrd_omojokun", _O + "constrained_tangential_byrd_omojokun", _O + "normal_byrd_omojokun", _G + "cauchy_geometry", _G + "spider_geometry", _G + "_cauchy_geom"],
+    "C16": [_O + "tangential_byrd_omojokun", _O + "constrained_tangential_byrd_omojokun", _O + "normal_byrd_omojokun", _G + "cauchy_geometry", _G + "spider_geometry", _G + "_cauchy_geom"],
+    "C17": [_P + "LinearConstraints.__init__", _P + "NonlinearConstraints.__call__", _P + "BoundConstraints.__init__", _M + "_get_constraints"],
+    "C18": [_F + "radius.setter", _F + "enhance_resolution", _F + "update_radius", _F + "increase_penalty", _F + "decrease_penalty", _F + "set_best_index", _F + "get_index_to_remove", _F + "__init__"],
+    "C19": [_M + "_set_default_options", _M + "_set_default_constants"],
+    "C20": [_P + "Problem.__call__", _P + "Problem.build_x", _M + "_eval", _M + "_build_result"],
+}
